@@ -280,6 +280,62 @@ pub fn run_dec_check(ctx: &Ctx, check: &DecCheck) -> Stats {
     if fw::should_stop() {
         return total;
     }
+    // ---- block-boundary family: a long ASCII run ending 0..=4 units before a power-of-two offset,
+    // then one atom (a sequence straddling the end of an internal block), then a short tail
+    let thorough = ctx.tier == fw::Tier::Thorough;
+    let blocks: &[usize] = if thorough { &[256, 512, 1024, 2048, 4096, 8192, 16384, 65536] } else { &[256, 1024, 4096, 16384] };
+    let st = par_run(ctx, n_enc * blocks.len(), |part, st| {
+        let enc = check.encs[part / blocks.len()];
+        let block = blocks[part % blocks.len()];
+        let algo = algo_for(enc);
+        let is16 = matches!(algo, Algo::Utf16(_));
+        let atoms: Vec<Vec<u8>> = hist::atoms(algo).into_iter().filter(|a| a.iter().any(|b| *b >= 0x80 || *b == 0x1B)).collect();
+        let want = if thorough { 10 } else { 5 };
+        let stepa = (atoms.len() / want).max(1);
+        let mut sc = Scratch::new();
+        for a in atoms.iter().step_by(stepa).take(want) {
+            for j in 0..=4usize {
+                if fw::should_stop() {
+                    return;
+                }
+                let units = block - j;
+                let mut stream: Vec<u8> = Vec::with_capacity(2 * block + 32);
+                for i in 0..(if is16 { units / 2 } else { units }) {
+                    let c = b' ' + (i % 90) as u8;
+                    match algo {
+                        Algo::Utf16(true) => stream.extend_from_slice(&[0, c]),
+                        Algo::Utf16(false) => stream.extend_from_slice(&[c, 0]),
+                        _ => stream.push(c),
+                    }
+                }
+                stream.extend_from_slice(a);
+                stream.extend_from_slice(if is16 { if algo == Algo::Utf16(true) { b"\x00t\x00a\x00i\x00l" } else { b"t\x00a\x00i\x00l\x00" } } else { b"tail" });
+                for &sink in &check.sinks {
+                    for &repl in &check.repls {
+                        for caps in [vec![], vec![block / 2 + 3], vec![block + 1]] {
+                            let h = DecHistory { enc, mode: check.modes[0], sink, repl, stream: stream.clone(), cuts: vec![], last_on_empty: j & 1 == 1, caps, fill: check.fills[j % check.fills.len()], align: j, sinks_per_call: vec![], repls_per_call: vec![] };
+                            st.evals += 1;
+                            st.nontrivial_distinct();
+                            st.class("sequence-straddling-a-power-of-two-offset");
+                            if let Some((msg, sig)) = (check.verdict)(&h, &mut sc, st, true) {
+                                if let Some(id) = fw::known_open_id(&sig) {
+                                    st.known_hit(id);
+                                } else {
+                                    st.violations.push(violation_for(&h, check, msg, sig));
+                                    return;
+                                }
+                            }
+                        }
+                    }
+                }
+            }
+        }
+    });
+    total.merge(st);
+    total.exhaustive.push(format!("block-boundary family: ASCII run ending 0..=4 units before offset {:?}, then each of ~5 non-ASCII atoms, then a tail x sinks x modes x capacities {{ample, half a block, block + 1}}", blocks));
+    if fw::should_stop() {
+        return total;
+    }
     // ---- random histories
     let parts_per_enc = 2usize;
     let per_part = (check.random_per_enc / parts_per_enc as u64).max(1);
